@@ -4,23 +4,24 @@ import os
 D = os.path.dirname(os.path.abspath(__file__))
 FLAGS = ["FixSubChange", "FixHbRefresh", "DevHbNoGen", "DevSyncNoGen", "DevCommitNoGen", "DevJoinOkEarly", "DevAssignAllMembers",
          "DevRestoreDropsAsg", "DevRestoreGenZero", "DevExpireIgnoresHb", "DevNoLaggerDrop", "DevNoExpire",
-         "DevLaggerSkippedOnExpiry", "DevSyncRefusesIdle", "DevHbWriteUnlocked", "DevCleanupWriteUnlocked", "DevSyncLookupUnlocked"]
+         "DevLaggerSkippedOnExpiry", "DevRestoreSkipsExpired", "DevJoinPutFailDropsMember", "DevMalformedJoinGhost", "DevJoinNewSkipsLoad", "DevJoinIgnoresLoadError", "DevSyncRefusesIdle", "DevHbWriteUnlocked", "DevCleanupWriteUnlocked", "DevSyncLookupUnlocked"]
 PROPS = ["C12_OnlySubscribed", "C12_ExactlyOne", "C12_ReplyFromMap", "C12_OneMapPerGen", "C13_StaleRejected", "C13_StaleNoCommit",
          "C13_GenMonotone", "C13_ReplyGen", "C14_JoinOK", "C14_Leader", "C14_ListOnlyLeader", "C14_SyncAfterLeader",
-         "C15_RestoreEqual", "C15_NotFenced", "C15_KeepWorking", "C43_RemovedJustified", "C43_NoOverdue", "C43_Rebalances"]
+         "C15_RestoreEqual", "C15_NotFenced", "C15_ActsOnRestored", "C15_KeepWorking", "C43_RemovedJustified", "C43_NoOverdue", "C43_Rebalances"]
 INTERNAL = ["StoreInSync", "LeaderIsMember", "AsgOnlyStable", "HbIsAlive"]
 S2 = '{{"t1"},{"t1","t2"}}'
 S3 = '{{"t1"},{"t2"},{"t1","t2"}}'
+S4 = '{{},{"t1"},{"t2"},{"t1","t2"}}'   # {} = JoinGroup without protocols / with unparseable metadata
 ST2 = '{{"t2"},{"t1","t2"}}'   # two members on the single partition of t2: one of them gets nothing
 
 
-def consts(members, subs, nparts, keept, maxclock, maxgen, flips=(), sess="{2}", reb=2):
+def consts(members, subs, nparts, keept, maxclock, maxgen, flips=(), sess="{2}", reb=2, coalesce=0):
     fl = {f: (f.startswith("Fix")) for f in FLAGS}
     for f in flips:
         fl[f] = not fl[f]
     out = ["CONSTANTS", " Members = {%s}" % ",".join('"%s"' % m for m in members), ' Topics = {"t1","t2"}', " NParts <- %s" % nparts,
            " SubsChoices = %s" % subs, " CommitTP <- CTP", " SessChoices = %s" % sess, " RebT = %d" % reb, " DefT = 30",
-           " KeepT = %s" % keept, " MaxClock = %d" % maxclock, " MaxGen = %d" % maxgen]
+           " KeepT = %s" % keept, " MaxClock = %d" % maxclock, " MaxGen = %d" % maxgen, " HbCoalesce = %d" % coalesce]
     out += [" %s = %s" % (f, "TRUE" if v else "FALSE") for f, v in fl.items()]
     return "\n".join(out) + "\n"
 
@@ -50,25 +51,35 @@ mc("MC_Group_thorough3.cfg", consts(["m1", "m2"], ST2, "NP21", "{TRUE}", 3, 2, s
 DEV = {
     "SubChange": ("FixSubChange", "C12", {}), "AssignAllMembers": ("DevAssignAllMembers", "C12", {}),
     "SyncLookupUnlocked": ("DevSyncLookupUnlocked", "C12", {}),
+    # time passes while the group is not loaded (no cleanup), the short session (2) lapses, the long one (6) does not
+    "RestoreSkipsExpired": ("DevRestoreSkipsExpired", "C12", {"sess": "{2,6}", "clock": 4}),
     "HbNoGen": ("DevHbNoGen", "C13", {}), "SyncNoGen": ("DevSyncNoGen", "C13", {}), "CommitNoGen": ("DevCommitNoGen", "C13", {}),
     "HbWriteUnlocked": ("DevHbWriteUnlocked", "C13", {}),
+    "JoinIgnoresLoadError": ("DevJoinIgnoresLoadError", "C13", {}),
     "JoinOkEarly": ("DevJoinOkEarly", "C14", {}),
+    # a member may join with no (parseable) subscription at all: the request alphabet contains the empty subscription
+    "MalformedJoinGhost": ("DevMalformedJoinGhost", "C14", {"subs": '{{},{"t1"}}'}),
+    # the only configuration with failing store writes (NextPutFault): on the repaired tree a failed write leaves memory ahead of the store
+    "JoinPutFailDropsMember": ("DevJoinPutFailDropsMember", "C14", {"nxt": "NextPutFault"}),
     "RestoreDropsAsg": ("DevRestoreDropsAsg", "C15", {}), "RestoreGenZero": ("DevRestoreGenZero", "C15", {}),
     # both members on the single partition of t2: whoever sorts second (random ids) is idle, whatever the model chose
     "SyncRefusesIdle": ("DevSyncRefusesIdle", "C15", {"subs": '{{"t2"}}'}),
     "CleanupWriteUnlocked": ("DevCleanupWriteUnlocked", "C15", {}),
+    "JoinNewSkipsLoad": ("DevJoinNewSkipsLoad", "C15", {}),
     "HbRefresh": ("FixHbRefresh", "C43", {}), "ExpireIgnoresHb": ("DevExpireIgnoresHb", "C43", {}),
     "NoLaggerDrop": ("DevNoLaggerDrop", "C43", {}), "NoExpire": ("DevNoExpire", "C43", {}),
+    # heartbeats closer than 2 ticks to the recorded one are not recorded (with a 500 ms tick: closer than 1 s)
+    "HbCoalesce": (None, "C43", {"coalesce": 2}),
     # the lagger's session (6) outlasts the rebalance timeout (3), the other member's session (2) lapses in the deadline tick
     "LaggerSkippedOnExpiry": ("DevLaggerSkippedOnExpiry", "C43", {"sess": "{2,6}", "reb": 3, "clock": 4}),
 }
 for n, (f, pid, o) in DEV.items():
     mc("Dev_Group_%s.cfg" % n,
-       consts(["m1", "m2"], o.get("subs", S2), "NP21", "{TRUE}", o.get("clock", 4), 4, flips=[f], sess=o.get("sess", "{2}"), reb=o.get("reb", 2)),
-       props=[p for p in PROPS if p.startswith(pid)], internal=[])
+       consts(["m1", "m2"], o.get("subs", S2), "NP21", "{TRUE}", o.get("clock", 4), 4, flips=[f] if f else [], sess=o.get("sess", "{2}"), reb=o.get("reb", 2), coalesce=o.get("coalesce", 0)),
+       props=[p for p in PROPS if p.startswith(pid)], internal=[], nxt=o.get("nxt", "Next"))
 
 SIMTAIL = "INIT Init\nNEXT %s\nINVARIANTS EmitSched\nPROPERTIES " + " ".join(PROPS) + "\nCHECK_DEADLOCK FALSE\n"
-open(os.path.join(D, "Sim_Group.cfg"), "w").write(consts(["m1", "m2", "m3"], S3, "NP32", "{TRUE}", 1000, 1000) + SIMTAIL % "Next")
+open(os.path.join(D, "Sim_Group.cfg"), "w").write(consts(["m1", "m2", "m3"], S4, "NP32", "{TRUE}", 1000, 1000) + SIMTAIL % "Next")
 open(os.path.join(D, "Sim_Group_clock.cfg"), "w").write(consts(["m1", "m2", "m3"], S3, "NP32", "{TRUE}", 1000, 1000, sess="{2,4}") + SIMTAIL % "NextClock")
 # all three "store I/O outside the lock" designs at once, no properties: the schedules contain hold/Release steps at random places.
 # On a tree that does its store I/O under c.mu every hold degenerates into the plain sequential call.
